@@ -260,4 +260,29 @@ CLAIMS = {
              "over histories and timeout races are not decided.",
         technique="CFG guard dominance; must-pass pairing of window entry/exit; who-may-cancel a named delay; unit inference",
         ref="4/C18"),
+    "C19": dict(
+        text="Static analysis of structural necessary conditions of BCP encoding and framing: the encoder percent-encodes "
+             "str(v) and names exactly once with no safe characters and prefixes the four type tags (bool tested before "
+             "int); the decoder splits the raw query on '&' and the first '=', applies its tag tests to that wire form, "
+             "strips exactly len(tag), converts with the tag's type and removes exactly one encoding layer on every typed "
+             "branch and on the string branch; encoder and decoder tag sets agree; the JSON form is chosen iff a value is a "
+             "dict/list and is recognised before pair parsing; both socket readers consume the stream only through "
+             "readline() and a single readexactly(n) whose n is the integer after the byte marker of the same line, raise "
+             "on end of stream and hand out commands one by one in arrival order; one command per line is sent. "
+             "Round-trip equality over all values (floats, nested JSON types) is not decided.",
+        technique="layer counting of quote/unquote calls per CFG branch; tag table agreement; stream-primitive who-may-call",
+        ref="4/C19"),
+    "C20": dict(
+        text="Static analysis of structural necessary conditions of credit play: the credit_units machine variable is written "
+             "only by the credits mode; every store is 0, the cap under a configured cap, a re-store of the current balance, "
+             "a rounding down to whole games, a subtraction of one game price clamped at zero, or (adding credits) a total "
+             "that on every feasible path is either known not to exceed the cap, was capped as the last assignment, or the "
+             "cap is unlimited; both gates approve iff the balance covers credit_units_per_game and a started player is "
+             "charged that same attribute, only in credit play; gates and charge are registered after removing earlier "
+             "registrations and removed as a set on free play; a coin is audited once with its value and takes part in the "
+             "pricing tiers while event and service credits are audited as such and never advance the tiers; expiration "
+             "delays use millisecond-typed settings with the right callbacks and are removed while a game runs. The "
+             "pricing-table arithmetic (tier bonuses) as such is not decided.",
+        technique="classification + feasible-path bound check of every store; table agreement gate/price; who-may-write; unit check against the config spec",
+        ref="4/C20"),
 }
